@@ -36,7 +36,16 @@ struct TExc {
   int id;
 };
 
-enum Prod { kSetValue, kSetError, kSetException, kDropPromise, kProdN };
+enum Prod {
+  kSetValue,
+  kSetError,
+  kSetException,
+  kDropPromise,
+  kOverwritePromise,   // p = std::move(other): the unset state must still be abandoned properly (StopError)
+  kSetThrowsThenDrop,  // Set(...) throws while constructing the value: the Promise stays valid, then it is dropped
+  kSetThrowsThenSet,   // ... or fulfilled by a second Set
+  kProdN
+};
 enum Cons {
   kThenInline,
   kThenExec,
@@ -50,13 +59,15 @@ enum Cons {
   kDropFuture,
   kConnectAttached,  // the downstream future already has a continuation when Connect is called
   kConnectWaiter,    // a third fiber already blocks in Get on the downstream future when Connect is called
+  kOverwriteFuture,  // f = std::move(other): like dropping the Future, nothing may run and the state is released once
   kConsN
 };
-const char* const kProdName[] = {"Set(value)", "Set(error)", "Set(exception)", "drop-promise"};
+const char* const kProdName[] = {"Set(value)", "Set(error)", "Set(exception)", "drop-promise", "promise overwritten by move-assignment",
+                                 "Set throws, then drop-promise", "Set throws, then Set(value)"};
 const char* const kConsName[] = {"ThenInline",  "Then(e)", "FutureOn::Detach", "DetachInline", "Detach(e)",
                                  "Get&&",       "Get const& polled", "Wait+Touch",     "Connect",      "drop-future",
                                  "Connect(downstream continuation attached first)",
-                                 "Connect(downstream Get already blocked)"};
+                                 "Connect(downstream Get already blocked)", "future overwritten by move-assignment"};
 const char* const kPayName[] = {"int", "move-only", "4-word-checksum"};
 
 template <typename P>
@@ -75,6 +86,14 @@ int ReadVal(const P& p) {
     return p.Read();
   }
 }
+
+// an argument for Promise::Set whose conversion to the value type throws (stands for a throwing copy / bad_alloc)
+template <typename P>
+struct Thrower {
+  operator P() const {  // NOLINT
+    throw TExc{1};
+  }
+};
 
 struct Ctx {
   int pk = 0;
@@ -95,7 +114,7 @@ void CheckResult(Ctx& cx, const yaclib::Result<P, TErr>& r) {
   if (!cx.set_begun) {
     cx.Err("result observed before the producer began to fulfil (delivered early)");
   }
-  switch (cx.pk) {
+  switch (cx.pk == kSetThrowsThenSet ? kSetValue : cx.pk) {
     case kSetValue:
       if (r.State() != yaclib::ResultState::Value) {
         cx.Err("expected a value");
@@ -173,6 +192,31 @@ void Body(Ctx& cx, int ck, int ek) {
       case kSetException:
         std::move(p).Set(std::make_exception_ptr(TExc{9}));
         break;
+      case kOverwritePromise: {
+        auto [f3, p3] = yaclib::MakeContract<P, TErr>();
+        p = std::move(p3);  // the unset state we owned moves into p3 and dies with it at the end of this scope
+        break;
+      }
+      case kSetThrowsThenDrop:
+      case kSetThrowsThenSet: {
+        bool thrown = false;
+        try {
+          std::move(p).Set(Thrower<P>{});
+        } catch (const TExc&) {
+          thrown = true;
+        }
+        if (!thrown) {
+          cx.Err("Set with a throwing value constructor did not propagate the exception");
+        } else if (!p.Valid()) {
+          cx.Err("a Set that threw left the Promise invalid: its state can no longer be fulfilled or abandoned");
+        } else if (cx.pk == kSetThrowsThenSet) {
+          vf::Point();
+          std::move(p).Set(MakeVal<P>(42));
+        } else {
+          auto dropped = std::move(p);
+        }
+        break;
+      }
       default: {
         auto dropped = std::move(p);
       }
@@ -345,6 +389,16 @@ void Body(Ctx& cx, int ck, int ek) {
       sample_ready(f);
       yaclib::Connect(std::move(f), std::move(p2));
       cx.c_end = ++cx.clock;
+      break;
+    }
+    case kOverwriteFuture: {
+      sample_ready(f);
+      {
+        auto [f3, p3] = yaclib::MakeContract<P, TErr>();
+        f = std::move(f3);  // the pending state we owned moves into f3 and is dropped with it
+      }
+      cx.c_end = ++cx.clock;
+      expect_call = false;
       break;
     }
     default: {
